@@ -10,6 +10,7 @@ ASSUMPTIONS = [
     'DRR theorems assume packets of at most Lmax bytes and a dict of positive weights; credits and quanta are exact rationals in the theorems, '
     'IEEE doubles compared bit for bit in the replay',
     'the scheduler processes on the real kernel refine the MultiQueueServer LTS: checked by replay; proved for RR and WRR as processes on the kernel model (Props/C15K, C15KW), not for DRR',
+    'in 15% of the cases size()/byte_size()/all_flows() of every configured flow are read before the first arrival and between arrivals; those instances are judged by the direct oracles only (a read makes a flow show up in all_flows() before its first packet)',
 ]
 EXTRA_MODULES = ('OnlVerif.Props.C15K', 'OnlVerif.Props.C15KW')
 TRUSTED_EXTRA = ['the kernel guarantees (G1-G3) that make `tick` admissible only at quiescence are theorems of model K (C01), assumed for the device LTS',
@@ -31,7 +32,7 @@ def prepare(ctx):
 
 
 def gen(rng, n):
-    return [gen_group(rng, i, ['rr', 'wrr', 'drr'][i % 3], backlog=rng.random() < 0.5, share=0.3) for i in range(n)]
+    return [gen_group(rng, i, ['rr', 'wrr', 'drr'][i % 3], backlog=rng.random() < 0.5, share=0.3, poll=0.15) for i in range(n)]
 
 
 # ---- BEGIN rrk leg: RR as processes on the kernel MODEL (lean/OnlVerif/Net/RROnK.lean, driver mode `rrk`) ----
